@@ -6,6 +6,7 @@ mod c14;
 mod c15;
 mod c16;
 mod c17;
+mod c19;
 mod clock;
 mod disk;
 mod engine;
@@ -121,6 +122,14 @@ fn plan(prop: &str, tier: &str, seed: u64) -> Plan {
                 extra: serde_json::json!({"builds": ["std+alloc+lfn+unicode (in-process)", "std+lfn+unicode (child process, fixed long-name buffer)"]}),
             }
         }
+        "C19" => Plan {
+            batches: c19::batches(tier, seed),
+            level: "exploration",
+            rule: "one evaluation = one seeded history executed in one of three builds of the library (same concrete operation list; long names up to 255 units); alloc vs fixed-buffer builds must give the same image fingerprint and observation hash for every history, unicode vs no-unicode for every ASCII-only history, and every build must satisfy its own model (ASCII-only folding when `unicode` is off); distinct = distinct (image, observation) pairs".into(),
+            exhaustive: false,
+            assumptions: vec!["determinism of the simulator (same trace => same device calls) makes cross-build comparison meaningful".into()],
+            extra: serde_json::json!({"builds": ["std+alloc+lfn+unicode (in-process)", "std+lfn+unicode (child process)", "std+alloc+lfn (child process)"]}),
+        },
         "C09" => Plan {
             batches: c09::batches(tier, seed),
             level: "fault_enumeration",
@@ -189,6 +198,19 @@ fn main() {
                 let _ = std::fs::remove_file(&tmp);
                 std::process::exit(st.ok().and_then(|s| s.code()).unwrap_or(2));
             }
+            if rep.kind == "c19-case" {
+                match c19::replay(&rep).and_then(|o| o.violation) {
+                    Some((v, _)) => {
+                        println!("VIOLATION property={} replay={}", v.property, path);
+                        println!("  class={} detail={}", v.class, v.detail);
+                        std::process::exit(1);
+                    }
+                    None => {
+                        println!("replay of {} held", path);
+                        std::process::exit(0);
+                    }
+                }
+            }
             if rep.kind != "engine" {
                 let out = c06::replay(&rep.kind, rep.seed).or_else(|| c07::replay(&rep.kind, rep.seed)).or_else(|| c14::replay(&rep.kind, rep.seed)).or_else(|| c17::replay(&rep.kind, rep.seed));
                 match out {
@@ -220,6 +242,10 @@ fn main() {
                     std::process::exit(0);
                 }
             }
+        }
+        "replay-batch" => {
+            let path = args.get(2).cloned().unwrap_or_else(|| usage());
+            c19::child_replay_batch(&path);
         }
         "child" => {
             // same batches, summary on stdout (used for the alternative feature builds)
